@@ -119,6 +119,7 @@ func cmdCheck(args []string) int {
 	paranoid := fs.Int("paranoid", 0, "cross-check every n-th solver-free decision with the solver")
 	noReplay := fs.Bool("noreplay", false, "skip native replay (debugging only: violations are then reported unconfirmed and the run is inconclusive)")
 	trace := fs.Bool("trace", false, "trace calls")
+	verbose := fs.Bool("v", false, "print model and native output of confirmed violations")
 	noEvidence := fs.Bool("noevidence", false, "do not write the evidence file (debugging)")
 	fs.Parse(args)
 	if t := os.Getenv("VERIF_TIER"); t != "" && *tier == "" {
@@ -264,7 +265,7 @@ func cmdCheck(args []string) int {
 				continue
 			}
 			v.Replay = file
-			v.NativeO = tail(res.Output, 600)
+			v.NativeO = tail(res.Output, 3000)
 			if confirms(v, res) {
 				v.Native = "confirmed"
 			} else {
@@ -328,6 +329,14 @@ func cmdCheck(args []string) int {
 			confirmedNew++
 			fmt.Printf("VIOLATION property=%s replay=%s\n", *prop, firstReplay)
 			fmt.Printf("  class=%q kind=%s msg=%q paths=%d\n", g.class, g.kind, g.msg, g.count)
+			if *verbose {
+				for _, v := range g.vs {
+					if v.Native == "confirmed" {
+						fmt.Printf("  model=%v\n  native output: %s\n", v.Model, tail(v.NativeO, 1500))
+						break
+					}
+				}
+			}
 			exit = 1
 		case rp == nil:
 			fmt.Printf("UNCONFIRMED (replay disabled) class=%q kind=%s msg=%q paths=%d model=%v\n", g.class, g.kind, g.msg, g.count, g.vs[0].Model)
